@@ -16,6 +16,10 @@ def inputs(kind, k=0):
     if kind == "tensor":
         h, w = [(12, 16), (16, 12), (20, 20)][k % 3]
         return torch.from_numpy(r.random((3, h, w), dtype=np.float32))
+    if kind == "tensorlong":
+        # very elongated images (no crop of the usual aspect-ratio range fits: fallback paths)
+        h, w = [(6, 400), (300, 5), (4, 333)][k % 3]
+        return torch.from_numpy(r.random((3, h, w), dtype=np.float32))
     if kind == "tensorbig":
         # more than 2**16 elements (code paths that switch algorithm / generator for large inputs)
         return torch.from_numpy(r.random((3, 150, 150), dtype=np.float32))
@@ -66,6 +70,7 @@ def leaf_catalog():
     C["KDRandomCrop.pad"] = (lambda: T.KDRandomCrop(size=10, padding=2, pad_if_needed=True), "tensor")
     C["KDRandomResizedCrop"] = (lambda: T.KDRandomResizedCrop(size=8), "pil")
     C["KDRandomResizedCrop.tensor"] = (lambda: T.KDRandomResizedCrop(size=(6, 8), scale=(0.2, 1.0)), "tensor")
+    C["KDRandomResizedCrop.elongated"] = (lambda: T.KDRandomResizedCrop(size=8), "tensorlong")
     C["KDSimpleRandomCrop"] = (lambda: T.KDSimpleRandomCrop(size=8, padding=2), "pil")
     C["KDTwoRandomCrop"] = (lambda: KDTwoRandomCrop(size=8), "pil")
     C["KDRandomErasing"] = (lambda: T.KDRandomErasing(p=0.9), "tensor")
